@@ -108,7 +108,7 @@ pub struct Visitor<'a> {
     pub(crate) env: Environment,
     pub(crate) style_rule_ignoring_at_root: Option<ExtendedSelector>,
     // avoid emitting duplicate warnings for the same span
-    pub(crate) warnings_emitted: HashSet<Span>,
+    pub(crate) warnings_emitted: HashSet<(String, Span)>,
     pub(crate) media_queries: Option<Vec<MediaQuery>>,
     pub(crate) media_query_sources: Option<IndexSet<MediaQuery>>,
     pub(crate) extender: ExtensionStore,
@@ -1584,9 +1584,15 @@ impl<'a> Visitor<'a> {
     }
 
     fn visit_warn_rule(&mut self, warn_rule: AstWarn) -> SassResult<()> {
-        if self.warnings_emitted.insert(warn_rule.span) {
-            let value = self.visit_expr(warn_rule.value)?;
-            let message = value.to_css_string(warn_rule.span, self.options.is_compressed())?;
+        let value = self.visit_expr(warn_rule.value)?;
+        let message = value.to_css_string(warn_rule.span, self.options.is_compressed())?;
+
+        // like dart-sass, only an identical message from the same `@warn` is
+        // suppressed: a loop that warns about different things reports each of them
+        if self
+            .warnings_emitted
+            .insert((message.clone(), warn_rule.span))
+        {
             self.emit_warning(&message, warn_rule.span);
         }
 
